@@ -51,7 +51,7 @@ def sim_text(res, sim):
     return f"ok held={len(sim.held)} occ=[" + ",".join(f"{a}@{fq(p[0])},{fq(p[1])}" for a, p in occ) + "]"
 
 
-def simulate(S, evs, extra_occupied=(), label="", round_trip=None):
+def simulate(S, evs, extra_occupied=(), label="", round_trip=None, doc=None):
     """choose the compatible occupancy (sites where spots light up are occupied), run the simulator"""
     sites = aodsim.layout_sites(S)
     picks = list(dict.fromkeys(aodsim.dry_run_sites(S, evs)))
@@ -69,7 +69,13 @@ def simulate(S, evs, extra_occupied=(), label="", round_trip=None):
     if len(sites) <= 60 or len(COQ_CASES) % 7 == 0 or round_trip:
         st0 = (f"(mkast {clist([f'({q(x)}, {q(y)})' for x, y in sorted(sites)])} "
                f"{clist([f'(({q(p[0])}, {q(p[1])}), {cnat(a)})' for p, a in before.items()])} [] [] [])")
-        COQ_CASES.append((f"({st0}, {paths_coq(evs)})", sim_text(res, sim), label, round_trip))
+        if doc is not None:
+            zx, zy, sx, sy, dx, dy = doc
+            nl = lambda l: clist([cnat(int(i)) for i in l])
+            dterm = f"(Some ({clist([q(v) for v in zx])}, {clist([q(v) for v in zy])}, {nl(sx)}, {nl(sy)}, {nl(dx)}, {nl(dy)}))"
+        else:
+            dterm = "None"
+        COQ_CASES.append((f"({st0}, {paths_coq(evs)}, {dterm})", sim_text(res, sim), label, round_trip, doc is not None))
     if res[0] == "reject":
         return res, before, sim
     if sorted(list(sim.occ.values()) + list(sim.held.values())) != sorted(before.values()):
@@ -77,7 +83,7 @@ def simulate(S, evs, extra_occupied=(), label="", round_trip=None):
     return ("ok",), before, sim
 
 
-def judge(ctx, move, label, S, method, args, valid, expected_end, sig_extra=None, extra_occupied=(), post=None):
+def judge(ctx, move, label, S, method, args, valid, expected_end, sig_extra=None, extra_occupied=(), post=None, doc=None):
     """run one library call; decide rejected / executable; compare with the documentation"""
     st, evs, extra = events.run_events(method, args, S)
     ctx.evaluations += 1
@@ -96,7 +102,7 @@ def judge(ctx, move, label, S, method, args, valid, expected_end, sig_extra=None
         shape = "transport"
     elif valid and move == "gemini.logical.vertical_shift":
         shape = "selected-transport"
-    res, before, sim = simulate(S, evs, extra_occupied, label=f"{move} {label}", round_trip=shape)
+    res, before, sim = simulate(S, evs, extra_occupied, label=f"{move} {label}", round_trip=shape, doc=doc if valid else None)
     if res[0] == "reject":
         ctx.hist(move, "NOT EXECUTABLE " + res[1])
         ctx.fail(dict(sig, kind="not-executable", why=res[1], valid=valid), rep, f"{move} {label}: accepted but not physically executable: {res[2]}")
@@ -188,7 +194,7 @@ def rearrange_cases(ctx):
                 return {a: m.get(p, p) for p, a in before.items()}
             judge(ctx, "two_col_zone.rearrange", f"layout {nx}x{ny}@{s}/{g} src=({sx},{sy}) dst=({dx},{dy})", S, two_col_zone.rearrange,
                   (I(sx), I(sy), I(dx), I(dy)), valid and (compatible or set(dst) == set(src)), end if compatible else None,
-                  sig_extra={"spacing_ge_6": s >= 6.0})
+                  sig_extra={"spacing_ge_6": s >= 6.0}, doc=(zone.x_positions, zone.y_positions, sx, sy, dx, dy) if compatible else None)
 
 
 def same_arguments_on_two_layouts(ctx):
@@ -330,10 +336,13 @@ def run(ctx):
     cases = COQ_CASES if len(COQ_CASES) <= ctx.pick(400, 3000) else ctx.rng.sample(COQ_CASES, ctx.pick(400, 3000))
     chunks = [cases[i:i + 25] for i in range(0, len(cases), 25)]
     bodies = [(f"sim_{k}", "From BS Require Import Core.Show Core.Base Model.Aod.\n"
-               "Eval vm_compute in (lines (map (fun c => (show_sim (sim_paths (fst c) (snd c)) ++ \"|\" ++ "
-               "show_bool (round_trip_ok (traps (fst c)) (occ (fst c)) (snd c)) ++ show_bool (transport_ok (traps (fst c)) (occ (fst c)) (snd c)) ++ show_bool (transport_sel_ok (traps (fst c)) (occ (fst c)) (snd c)))%string) "
-               + clist([c[0] for c in ch]) + ")).") for k, ch in enumerate(chunks)]
-    mism, not_recognised, n_rt, n_tr, not_transport, n_sel, not_sel = [], [], 0, 0, [], 0, []
+               "Definition row (c : ast * list spath * option (list Q * list Q * list nat * list nat * list nat * list nat)) : string :=\n"
+               "  match c with (st, ps, doc) =>\n"
+               "    (show_sim (sim_paths st ps) ++ \"|\" ++ show_bool (round_trip_ok (traps st) (occ st) ps) ++ show_bool (transport_ok (traps st) (occ st) ps)\n"
+               "     ++ show_bool (transport_sel_ok (traps st) (occ st) ps)\n"
+               "     ++ match doc with Some (zx, zy, sx, sy, dx, dy) => show_bool (documented_transport zx zy sx sy dx dy ps) | None => \"-\" end)%string end.\n"
+               "Eval vm_compute in (lines (map row " + clist([c[0] for c in ch]) + ")).") for k, ch in enumerate(chunks)]
+    mism, not_recognised, n_rt, n_tr, not_transport, n_sel, not_sel, n_doc, not_doc = [], [], 0, 0, [], 0, [], 0, []
     for ch, (ok, vals, log) in zip(chunks, coqrun.eval_many(ctx.bdir, bodies)):
         if not ok or len(vals) != 1 or len(vals[0]) != len(ch):
             ctx.obligation("coqc simulator file evaluates", False, log[-800:])
@@ -346,6 +355,10 @@ def run(ctx):
                 n_rt += 1
                 if rt[:1] != "T":
                     not_recognised.append({"call": c[2]})
+            if c[4] and c[1].startswith("ok"):
+                n_doc += 1
+                if rt[3:4] != "T":
+                    not_doc.append({"call": c[2]})
             if c[3] == "selected-transport" and c[1].startswith("ok"):
                 n_sel += 1
                 if rt[2:3] != "T":
@@ -365,6 +378,9 @@ def run(ctx):
     ctx.correspondence("every accepted valid gemini vertical_shift call plays one path of the selected-transport shape (transport_sel_ok evaluated "
                        "in Coq), so theorem C08_recognised_selected_transport_is_executable_and_delivers applies", n_sel, not_sel)
     ctx.count("valid gemini vertical_shift calls recognised by the Coq recogniser", n_sel - len(not_sel))
+    ctx.correspondence("every accepted valid rearrange call starts on zone[src_x, src_y] and ends on zone[dst_x, dst_y] (documented_transport evaluated "
+                       "in Coq), so theorem C08_documented_transport_delivers gives its documented outcome", n_doc, not_doc)
+    ctx.count("valid rearrange calls whose documented source/destination grids are confirmed in Coq", n_doc - len(not_doc))
     ctx.sample({"call": COQ_CASES[0][2], "simulator": COQ_CASES[0][1][:200]} if COQ_CASES else "none")
     ctx.explanation = ("Theorems about the simulator that defines 'physically executable': every accepted sequence of paths conserves the atoms; "
                        "accepted releases are onto vacant trap sites, spots light up on trap sites, jumps while holding and dimension mismatches are "
